@@ -4,6 +4,7 @@ import Resgate.Model.Pattern
 import Resgate.Model.Diff
 import Resgate.Model.Http
 import Resgate.Model.Throttle
+import Resgate.Gw.Run
 
 /-
 Line-protocol driver: one operation per input line, one canonical result per output line.
@@ -185,16 +186,33 @@ def evalLine (line : String) : String :=
     | _, _ => "bad-op"
   | _ => "bad-op"
 
-partial def loop (hin : IO.FS.Stream) (hout : IO.FS.Stream) : IO Unit := do
+partial def loop (hin : IO.FS.Stream) (hout : IO.FS.Stream) (gw : Option (Resgate.Gw.Gw × Bool)) : IO Unit := do
   let line ← hin.getLine
   if line.isEmpty then return ()
-  hout.putStrLn (evalLine line)
-  loop hin hout
+  let l := line.trimAscii.toString
+  if l.startsWith "gw-begin" then
+    let ws := l.splitOn " "
+    let ref := (ws.getD 1 "0").toInt?.getD 0
+    let rst := (ws.getD 2 "0").toInt?.getD 0
+    let snap := ws.getD 3 "0" == "1"
+    hout.putStrLn "ok"
+    loop hin hout (some ({ refThrottle := ref, resetThrottle := rst }, snap))
+  else if l == "gw-end" then
+    hout.putStrLn "ok"
+    loop hin hout none
+  else match gw with
+    | some (g, snap) =>
+      let (g', out) := Resgate.Gw.runStimulus g l snap
+      hout.putStrLn out
+      loop hin hout (some (g', snap))
+    | none =>
+      hout.putStrLn (evalLine line)
+      loop hin hout none
 
 def main (_args : List String) : IO UInt32 := do
   let hin ← IO.getStdin
   let hout ← IO.getStdout
-  loop hin hout
+  loop hin hout none
   hout.flush
   return 0
 
